@@ -143,7 +143,7 @@ func TestCheck(t *testing.T) {
 	rec = mon.Open("C13")
 	defer rec.Close()
 	rec.Note("rule", "a case is one history of 2-8 goroutines x 1-3 keys driven in lock-step against one lock primitive (fifo.Mutex, fifo.Map, cmap.Mutex, lock.Context, lock.OuterCancel), with seeded parking of a caller at the verif hook points between the map look-up and the mutex operation; cmap additionally runs the two directed delete-and-release histories. An occupancy monitor shadows every critical section; FIFO grants are compared with arrival order; fifo.Map's entry count is read at idle points; cancellation and OuterCancel rules are judged from the recorded grants, cancellations and causes in virtual time. Non-trivial = at least one acquisition had to wait; distinct = distinct step list.")
-	rec.Note("require", []string{"fifo.order_checked", "fifomap.idle_len_checked", "fifomap.park.map.lock.counted", "fifomap.park.map.unlock.counted", "cmap.park.lock.lookedup", "cmap.park.rlock.lookedup", "cmap.delete_unlock_safe", "cmap.directed.waiter_confirmed", "context.cancelled_while_waiting", "context.error_holds_nothing", "outer.writer_cancelled_readers_at_grace", "outer.reader_released_before_grace", "outer.reader_blocked_by_writer", "outer.rlock_error_holds_nothing_checked", "outer.free_lock_granted_at_once", "outer.grace_kept_for_holder_whose_parent_ended", "waits", "stress.acquisitions"})
+	rec.Note("require", []string{"fifo.order_checked", "fifomap.idle_len_checked", "fifomap.park.map.lock.counted", "fifomap.park.map.unlock.counted", "cmap.park.lock.lookedup", "cmap.park.rlock.lookedup", "cmap.delete_unlock_safe", "cmap.directed.waiter_confirmed", "context.cancelled_while_waiting", "context.error_holds_nothing", "outer.writer_cancelled_readers_at_grace", "outer.reader_released_before_grace", "outer.reader_blocked_by_writer", "outer.rlock_error_holds_nothing_checked", "outer.free_lock_granted_at_once", "outer.grace_kept_for_holder_whose_parent_ended", "outer.release_after_shutdown_returned", "outer.writers_exclusive_after_shutdown", "waits", "stress.acquisitions"})
 	ps := plans()
 	rec.Planned(len(ps))
 	for idx, pl := range ps {
@@ -868,13 +868,14 @@ func outerCancel(w *world, rng *mon.RNG) bool {
 		doomed   bool   // its parent context was ended by the harness: any cause is attributable
 	}
 	type writer struct {
-		id        int
-		arrived   time.Time
-		grantSeq  int64
-		granted   time.Time
-		unlock    context.CancelFunc
-		in        bool
-		expectNow bool // nobody was inside or waiting when it arrived: it must be granted without delay
+		id         int
+		arrived    time.Time
+		grantSeq   int64
+		granted    time.Time
+		unlock     context.CancelFunc
+		in         bool
+		unlockedAt time.Time
+		expectNow  bool // nobody was inside or waiting when it arrived: it must be granted without delay
 	}
 	var mu sync.Mutex
 	var seq int64
@@ -960,8 +961,62 @@ func outerCancel(w *world, rng *mon.RNG) bool {
 		return true
 	}
 	nsteps := rng.Range(4, 18)
+	// one case in three starts with a scripted prefix that re-uses reader slots: readers release, a writer
+	// comes and goes, new readers arrive, the old release functions are called again, the next writer waits
+	type sop struct {
+		op   int
+		mode string
+	}
+	var script []sop
+	if rng.Chance(1, 3) {
+		n := rng.Range(1, 3)
+		for i := 0; i < n; i++ {
+			script = append(script, sop{0, "prompt"})
+		}
+		for i := 0; i < n; i++ {
+			script = append(script, sop{2, ""})
+		}
+		if rng.Bool() {
+			script = append(script, sop{7, ""})
+		}
+		script = append(script, sop{3, ""}, sop{4, ""})
+		for i := 0; i < n; i++ {
+			script = append(script, sop{0, rng.PickStr("stubborn", "stubborn", "prompt")})
+		}
+		for i := 0; i < n; i++ {
+			script = append(script, sop{7, ""})
+		}
+		script = append(script, sop{3, ""}, sop{5, "long"})
+		if nsteps < len(script)+2 {
+			nsteps = len(script) + 2
+		}
+		rec.Count("outer.slot_reuse_scripts", 1)
+	}
 	for s := 0; s < nsteps && !w.viol; s++ {
-		switch rng.Intn(7) {
+		op, forced := rng.Intn(8), sop{}
+		if s < len(script) {
+			forced = script[s]
+			op = forced.op
+		}
+		switch op {
+		case 7: // a reader that has released calls its release function again (a CancelFunc is idempotent)
+			mu.Lock()
+			var cand []*reader
+			for _, r := range readers {
+				if r.released {
+					cand = append(cand, r)
+				}
+			}
+			var r *reader
+			if len(cand) > 0 {
+				r = cand[rng.Intn(len(cand))]
+			}
+			mu.Unlock()
+			if r != nil {
+				w.step(fmt.Sprintf("reader%d calls its release function again", r.id))
+				rec.Count("outer.release_called_again", 1)
+				r.release()
+			}
 		case 6: // the parent context of a reader that is inside ends; the reader keeps its hold until it releases
 			mu.Lock()
 			var cand []*reader
@@ -988,6 +1043,9 @@ func outerCancel(w *world, rng *mon.RNG) bool {
 			// some callers come with a context that has already ended, or that ends while they are
 			// queued behind a writer: RLock then reports an error (and holds nothing) or grants
 			doomed := rng.Chance(1, 4)
+			if forced.mode != "" {
+				r.mode, doomed = forced.mode, false
+			}
 			r.doomed = doomed
 			pre := doomed && rng.Bool()
 			if pre {
@@ -1160,6 +1218,7 @@ func outerCancel(w *world, rng *mon.RNG) bool {
 			}
 			if wr != nil {
 				wr.in = false
+				wr.unlockedAt = time.Now()
 				w.occ.leave(k, wr.id, true)
 			}
 			mu.Unlock()
@@ -1169,6 +1228,9 @@ func outerCancel(w *world, rng *mon.RNG) bool {
 			}
 		default:
 			d := []time.Duration{time.Millisecond, grace / 2, grace - 1, grace, grace + 1, 2 * grace}[rng.Intn(6)]
+			if forced.mode == "long" {
+				d = 2 * grace
+			}
 			w.step("sleep " + d.String())
 			time.Sleep(d)
 		}
@@ -1230,6 +1292,32 @@ func outerCancel(w *world, rng *mon.RNG) bool {
 				rec.Count("outer.free_lock_granted_at_once", 1)
 				wr.expectNow = false
 			}
+		}
+		// bounded progress: the earliest writer not yet granted, once every earlier writer has unlocked, has
+		// been waiting only for readers - and every reader is told to stop one grace period after the writer's
+		// turn came, which is all the lock waits for. So a full grace period after its turn it must be inside.
+		for i, wr := range writers {
+			if wr.grantSeq != 0 {
+				continue
+			}
+			turn := wr.arrived
+			ok := true
+			for _, x := range writers[:i] {
+				if x.grantSeq == 0 || x.in {
+					ok = false
+				} else if x.unlockedAt.After(turn) {
+					turn = x.unlockedAt
+				}
+			}
+			if ok && time.Now().After(turn.Add(grace)) {
+				mu.Unlock()
+				w.violation("OuterCancel/writer-not-granted-after-grace", fmt.Sprintf("writer%d's turn came at %s (arrival / last unlock of an earlier writer); at %s, more than the grace period %v later, it is still not granted: a reader was never told to stop", wr.id, turn.Format("05.000"), time.Now().Format("05.000"), grace))
+				return true
+			}
+			if ok && !time.Now().Before(turn.Add(grace)) {
+				rec.Count("outer.head_writer_progress_checked", 1)
+			}
+			break
 		}
 		// a writer that was granted: every reader granted before it has released or was told to stop
 		for _, wr := range writers {
@@ -1311,9 +1399,104 @@ func outerCancel(w *world, rng *mon.RNG) bool {
 	}
 	nw := len(writers)
 	mu.Unlock()
-	stop()
+	// ---- shutdown with one reader inside: the lock stops running; the reader's release function still
+	// returns, a caller that asks for the read lock afterwards gets an error (and holds nothing), and
+	// callers of Lock() - which never reports an error - still exclude one another
+	type lastReader struct {
+		ctx context.Context
+		rel context.CancelFunc
+		err error
+	}
+	lastCh := make(chan lastReader, 1)
+	go func() {
+		c, rel, err := o.RLock(context.Background())
+		lastCh <- lastReader{c, rel, err}
+	}()
 	synctest.Wait()
-	<-runDone
+	var last lastReader
+	select {
+	case last = <-lastCh:
+		if last.err != nil {
+			w.violation("OuterCancel/rlock-error-while-running", fmt.Sprintf("RLock on the idle running lock returned %v", last.err))
+			return true
+		}
+	default:
+		w.violation("OuterCancel/reader-not-admitted", "the lock is idle (every reader released, every writer unlocked) but RLock did not return")
+		return true
+	}
+	w.step("shutdown with a reader inside")
+	stop()
+	if q := mon.Quiesce(); !q.OK {
+		rec.Inconclusive(w.idx, "no quiescence after shutdown", q)
+		return true
+	}
+	select {
+	case <-runDone:
+	default:
+		w.violation("OuterCancel/run-did-not-return", "Run did not return after its context ended")
+		return true
+	}
+	if last.ctx.Err() != nil {
+		if c := context.Cause(last.ctx); !errors.Is(c, errOuter) {
+			w.violation("OuterCancel/wrong-cause", fmt.Sprintf("the reader inside at shutdown was cancelled with cause %v instead of the configured one", c))
+			return true
+		}
+		rec.Count("outer.reader_cancelled_at_shutdown", 1)
+	} else {
+		rec.Count("outer.reader_not_cancelled_at_shutdown", 1)
+	}
+	relDone := make(chan struct{})
+	go func() { last.rel(); close(relDone) }()
+	q := mon.Quiesce()
+	select {
+	case <-relDone:
+		rec.Count("outer.release_after_shutdown_returned", 1)
+	default:
+		w.violation("OuterCancel/release-after-shutdown-blocked", fmt.Sprintf("the release function of the reader that was inside at shutdown did not return (mutex-blocked goroutines: %d %v)", q.MutexBlocked, q.MutexFrames))
+		return true
+	}
+	if _, rel, err := o.RLock(context.Background()); err == nil {
+		rec.Count("outer.rlock_granted_after_shutdown", 1)
+		rel()
+	} else {
+		rec.Count("outer.rlock_error_after_shutdown", 1)
+	}
+	sk := "outer-after-shutdown"
+	gate := make(chan struct{})
+	fin := make(chan int, 3)
+	for i := 0; i < 3; i++ {
+		id := 9000 + i
+		go func() {
+			u := o.Lock()
+			w.occ.enter(sk, id, true)
+			<-gate
+			w.occ.leave(sk, id, true)
+			u()
+			fin <- id
+		}()
+	}
+	finished := 0
+	for round := 0; round < 3; round++ {
+		mon.Quiesce()
+		if v := w.occ.violation(); v != "" {
+			w.violation("OuterCancel/two-writers-after-shutdown", v)
+			return true
+		}
+		if in := w.occ.inside(sk); in != 1 {
+			w.violation("OuterCancel/writer-stuck-after-shutdown", fmt.Sprintf("after shutdown %d callers of Lock() finished and %d wait, but %d are inside (expected exactly one)", finished, 3-finished, in))
+			return true
+		}
+		gate <- struct{}{}
+		mon.Quiesce()
+		select {
+		case <-fin:
+			finished++
+		default:
+			w.violation("OuterCancel/unlock-after-shutdown-blocked", "the unlock function of a writer granted after shutdown did not return")
+			return true
+		}
+	}
+	rec.Count("outer.writers_exclusive_after_shutdown", 1)
 	for _, r := range readers {
 		r.parent()
 	}
